@@ -237,5 +237,7 @@ func (c *Client[C]) Ping(ctx context.Context) error {
 		return nil
 	case <-ctx.Done():
 		return ctx.Err()
+	case <-c.cc.Context().Done():
+		return fmt.Errorf("connection was closed: %w", c.cc.Context().Err())
 	}
 }
